@@ -1,12 +1,677 @@
-//! C16 — not built yet.
-use crate::runner::{Outcome, Summary};
-use crate::Ctx;
-use serde_json::Value;
+//! C16 — calibration lookup follows the documented precedence rules.
+//!
+//! This file also holds the code shared by the calibration group (C16–C19): the abstraction function
+//! between real quil-rs calibration programs and the JSON encoding of spec/CalibrationRules.tla
+//! (`abs` sub-module), used from c17/c18/c19 via `super::c16::abs`.
+//!
+//! replay: TLC cases {kind, hist, tags, query, chosen} from spec/mc/MC_Calibration.tla: the insert history
+//!         is performed with `insert_calibration` / `insert_measurement_calibration` (bodies are tagged),
+//!         the set order is compared (replace in place) and the chosen definition is compared for
+//!         `get_match_for_gate` / `get_match_for_measurement` and `Program::expand_calibrations`.
+//! drive:  seeded larger sets over wider alphabets; events reset/insert/match go to
+//!         spec/trace/CalibrationTrace.tla, where TLC evaluates BestMatch on the recorded answers.
 
-pub fn replay(_ctx: &Ctx, _case: &Value) -> Outcome {
-    panic!("C16: replay not implemented")
+use crate::runner::{Outcome, Summary, Violation};
+use crate::util;
+use crate::Ctx;
+use quil_rs::instruction::Instruction;
+use quil_rs::program::Calibrations;
+use quil_rs::Program;
+use rand::seq::SliceRandom;
+use rand::Rng;
+use serde_json::{json, Value};
+
+/// Abstraction function of the calibration group.
+///
+/// Encoding (spec/CalibrationRules.tla):
+///   qubit   {"t":"fixed","n":0} | {"t":"var","s":"q"}
+///   expr    {"t":"int","n":0} | {"t":"real","s":"1.5707963267948966"} | {"t":"pi2"} | {"t":"var","v":"t"}
+///           | {"t":"plus1","e":E} | {"t":"neg","e":E}
+///   instr   {"k":Kind,"name":str,"mods":[str],"params":[E],"qubits":[Q],"mref":Opt{name,index},"data":str}
+///           ("" = absent for name/data)
+///   gate calibration     {"k":"DefCal","name","mods","params","qubits","body":[instr]}
+///   measure calibration  {"k":"DefCalMeasure","name":"" | n,"qubit":Q,"target":"" | t,"body":[instr]}
+pub mod abs {
+    use crate::util;
+    use quil_rs::expression::{
+        Expression, InfixExpression, InfixOperator, PrefixExpression, PrefixOperator,
+    };
+    use quil_rs::instruction::*;
+    use quil_rs::program::{CalibrationExpansion, CalibrationSource, ExpansionResult, SourceMap};
+    use quil_rs::program::InstructionIndex;
+    use quil_rs::Program;
+    use serde_json::{json, Value};
+
+    // ------------------------------------------------------------------ abstract -> text -> real
+
+    pub fn render_qubit(q: &Value) -> String {
+        match q["t"].as_str() {
+            Some("fixed") => q["n"].as_u64().expect("fixed qubit index").to_string(),
+            Some("var") => q["s"].as_str().expect("qubit variable name").to_string(),
+            _ => panic!("abs: unknown qubit {q}"),
+        }
+    }
+
+    fn atomic(e: &Value) -> bool {
+        matches!(e["t"].as_str(), Some("int") | Some("real") | Some("var"))
+    }
+
+    pub fn render_expr(e: &Value) -> String {
+        let wrap = |x: &Value| if atomic(x) { render_expr(x) } else { format!("({})", render_expr(x)) };
+        match e["t"].as_str() {
+            Some("int") => e["n"].as_u64().expect("int literal").to_string(),
+            Some("real") => e["s"].as_str().expect("real literal").to_string(),
+            Some("pi2") => "pi/2".to_string(),
+            Some("var") => format!("%{}", e["v"].as_str().expect("variable name")),
+            Some("plus1") => format!("{}+1", wrap(&e["e"])),
+            Some("neg") => format!("-{}", wrap(&e["e"])),
+            _ => panic!("abs: unknown expression {e}"),
+        }
+    }
+
+    pub fn render_mref(m: &Value) -> String {
+        format!("{}[{}]", m["name"].as_str().expect("mref name"), m["index"].as_u64().expect("mref index"))
+    }
+
+    fn strs(v: &Value) -> Vec<String> {
+        v.as_array().map(|a| a.iter().map(|x| x.as_str().unwrap_or("").to_string()).collect()).unwrap_or_default()
+    }
+
+    fn seq<'a>(v: &'a Value, k: &str) -> &'a [Value] {
+        v.get(k).and_then(|x| x.as_array()).map(|a| a.as_slice()).unwrap_or(&[])
+    }
+
+    fn qubits_text(i: &Value) -> String {
+        seq(i, "qubits").iter().map(render_qubit).collect::<Vec<_>>().join(" ")
+    }
+
+    fn gate_head(i: &Value) -> String {
+        let mut t = String::new();
+        for m in strs(&i["mods"]) {
+            t.push_str(&m);
+            t.push(' ');
+        }
+        t.push_str(i["name"].as_str().expect("gate name"));
+        let ps = seq(i, "params");
+        if !ps.is_empty() {
+            t.push('(');
+            t.push_str(&ps.iter().map(render_expr).collect::<Vec<_>>().join(", "));
+            t.push(')');
+        }
+        let q = qubits_text(i);
+        if !q.is_empty() {
+            t.push(' ');
+            t.push_str(&q);
+        }
+        t
+    }
+
+    const FRAME_KINDS: &[(&str, &str)] = &[
+        ("SetFrequency", "SET-FREQUENCY"),
+        ("SetPhase", "SET-PHASE"),
+        ("SetScale", "SET-SCALE"),
+        ("ShiftFrequency", "SHIFT-FREQUENCY"),
+        ("ShiftPhase", "SHIFT-PHASE"),
+    ];
+
+    pub fn render_instr(i: &Value) -> String {
+        let k = i["k"].as_str().unwrap_or_else(|| panic!("abs: instruction without kind {i}"));
+        let name = i["name"].as_str().unwrap_or("");
+        let p1 = || render_expr(&seq(i, "params")[0]);
+        let mref = || render_mref(&i["mref"]["some"]);
+        match k {
+            "Gate" => gate_head(i),
+            "Measure" => {
+                let mut t = "MEASURE".to_string();
+                if !name.is_empty() {
+                    t.push('!');
+                    t.push_str(name);
+                }
+                t.push(' ');
+                t.push_str(&qubits_text(i));
+                if i["mref"].get("some").is_some() {
+                    t.push(' ');
+                    t.push_str(&mref());
+                }
+                t
+            }
+            "Reset" => format!("RESET {}", qubits_text(i)).trim_end().to_string(),
+            "Delay" => format!("DELAY {} {}", qubits_text(i), p1()),
+            "Fence" => format!("FENCE {}", qubits_text(i)),
+            "Pulse" => format!("PULSE {} \"{}\" flat(duration: {}, iq: 1.0)", qubits_text(i), name, p1()),
+            "Capture" => {
+                format!("CAPTURE {} \"{}\" flat(duration: {}, iq: 1.0) {}", qubits_text(i), name, p1(), mref())
+            }
+            "RawCapture" => format!("RAW-CAPTURE {} \"{}\" {} {}", qubits_text(i), name, p1(), mref()),
+            "SwapPhases" => {
+                let qs = seq(i, "qubits");
+                format!("SWAP-PHASES {} \"{}\" {} \"{}\"", render_qubit(&qs[0]), name, render_qubit(&qs[1]), name)
+            }
+            "Declare" => format!("DECLARE {name} BIT[1]"),
+            "Pragma" => {
+                let d = i["data"].as_str().unwrap_or("");
+                if d.is_empty() {
+                    format!("PRAGMA {name}")
+                } else {
+                    format!("PRAGMA {name} \"{d}\"")
+                }
+            }
+            "Nop" => "NOP".to_string(),
+            "Move" => format!("MOVE {} 1", mref()),
+            other => match FRAME_KINDS.iter().find(|(a, _)| *a == other) {
+                Some((_, kw)) => format!("{} {} \"{}\" {}", kw, qubits_text(i), name, p1()),
+                None => panic!("abs: unknown instruction kind {other}"),
+            },
+        }
+    }
+
+    pub fn render_def(d: &Value) -> String {
+        let mut t = match d["k"].as_str() {
+            Some("DefCal") => format!("DEFCAL {}:", gate_head(d)),
+            Some("DefCalMeasure") => {
+                let mut h = "DEFCAL MEASURE".to_string();
+                let n = d["name"].as_str().unwrap_or("");
+                if !n.is_empty() {
+                    h.push('!');
+                    h.push_str(n);
+                }
+                h.push(' ');
+                h.push_str(&render_qubit(&d["qubit"]));
+                let tg = d["target"].as_str().unwrap_or("");
+                if !tg.is_empty() {
+                    h.push(' ');
+                    h.push_str(tg);
+                }
+                h.push(':');
+                h
+            }
+            _ => panic!("abs: not a calibration definition {d}"),
+        };
+        for i in seq(d, "body") {
+            t.push_str("\n    ");
+            t.push_str(&render_instr(i));
+        }
+        t
+    }
+
+    pub fn instr_from_abs(i: &Value) -> Instruction {
+        let real = util::instr(&render_instr(i));
+        // the abstraction function must be the inverse of the rendering on the alphabets in use
+        let back = instr_to_abs(&real);
+        if back != *i {
+            panic!("abs: abstraction mismatch: {i} renders to {:?} which abstracts to {back}", render_instr(i));
+        }
+        real
+    }
+
+    pub fn def_from_abs(d: &Value) -> Instruction {
+        let real = util::instr(&render_def(d));
+        let back = def_to_abs(&real);
+        if back != *d {
+            panic!("abs: abstraction mismatch: {d} renders to {:?} which abstracts to {back}", render_def(d));
+        }
+        real
+    }
+
+    // ------------------------------------------------------------------ real -> abstract
+
+    pub fn qubit_to_abs(q: &Qubit) -> Value {
+        match q {
+            Qubit::Fixed(n) => json!({"t": "fixed", "n": n}),
+            Qubit::Variable(s) => json!({"t": "var", "s": s}),
+            Qubit::Placeholder(_) => panic!("abs: placeholder qubit is not modelled"),
+        }
+    }
+
+    pub fn expr_to_abs(e: &Expression) -> Value {
+        match e {
+            Expression::Number(c) if c.im == 0.0 => {
+                if c.re >= 0.0 && c.re.fract() == 0.0 && c.re < 1.0e9 {
+                    json!({"t": "int", "n": c.re as u64})
+                } else {
+                    json!({"t": "real", "s": format!("{}", c.re)})
+                }
+            }
+            Expression::Variable(v) => json!({"t": "var", "v": v}),
+            Expression::Infix(InfixExpression { left, operator: InfixOperator::Slash, right })
+                if **left == Expression::PiConstant() && **right == Expression::Number(2.0.into()) =>
+            {
+                json!({"t": "pi2"})
+            }
+            Expression::Infix(InfixExpression { left, operator: InfixOperator::Plus, right })
+                if **right == Expression::Number(1.0.into()) =>
+            {
+                json!({"t": "plus1", "e": expr_to_abs(left)})
+            }
+            Expression::Prefix(PrefixExpression { operator: PrefixOperator::Minus, expression }) => {
+                json!({"t": "neg", "e": expr_to_abs(expression)})
+            }
+            other => panic!("abs: expression is not modelled: {other:?}"),
+        }
+    }
+
+    fn mref_to_abs(m: &MemoryReference) -> Value {
+        json!({"name": m.name, "index": m.index})
+    }
+
+    fn rec(k: &str, name: &str, mods: Vec<String>, params: Vec<Value>, qubits: Vec<Value>, mref: Option<Value>, data: &str) -> Value {
+        json!({"k": k, "name": name, "mods": mods, "params": params, "qubits": qubits,
+               "mref": match mref { Some(m) => json!({"some": m}), None => json!({"none": true}) }, "data": data})
+    }
+
+    fn mods_to_abs(ms: &[GateModifier]) -> Vec<String> {
+        ms.iter()
+            .map(|m| match m {
+                GateModifier::Controlled => "CONTROLLED".to_string(),
+                GateModifier::Dagger => "DAGGER".to_string(),
+                GateModifier::Forked => "FORKED".to_string(),
+            })
+            .collect()
+    }
+
+    fn qs(q: &[Qubit]) -> Vec<Value> {
+        q.iter().map(qubit_to_abs).collect()
+    }
+
+    fn wave_duration(w: &WaveformInvocation) -> Vec<Value> {
+        if w.name != "flat" {
+            panic!("abs: waveform {} is not modelled", w.name);
+        }
+        vec![expr_to_abs(w.parameters.get("duration").expect("flat(duration: ..)"))]
+    }
+
+    pub fn instr_to_abs(i: &Instruction) -> Value {
+        let fr = |k: &str, f: &FrameIdentifier, e: &Expression| rec(k, &f.name, vec![], vec![expr_to_abs(e)], qs(&f.qubits), None, "");
+        match i {
+            Instruction::Gate(g) => rec("Gate", &g.name, mods_to_abs(&g.modifiers), g.parameters.iter().map(expr_to_abs).collect(), qs(&g.qubits), None, ""),
+            Instruction::Measurement(m) => rec("Measure", m.name.as_deref().unwrap_or(""), vec![], vec![], vec![qubit_to_abs(&m.qubit)], m.target.as_ref().map(mref_to_abs), ""),
+            Instruction::Reset(r) => rec("Reset", "", vec![], vec![], r.qubit.iter().map(qubit_to_abs).collect(), None, ""),
+            Instruction::Delay(d) => {
+                if !d.frame_names.is_empty() {
+                    panic!("abs: DELAY with frame names is not modelled");
+                }
+                rec("Delay", "", vec![], vec![expr_to_abs(&d.duration)], qs(&d.qubits), None, "")
+            }
+            Instruction::Fence(f) => rec("Fence", "", vec![], vec![], qs(&f.qubits), None, ""),
+            Instruction::Pulse(p) => rec("Pulse", &p.frame.name, vec![], wave_duration(&p.waveform), qs(&p.frame.qubits), None, ""),
+            Instruction::Capture(c) => rec("Capture", &c.frame.name, vec![], wave_duration(&c.waveform), qs(&c.frame.qubits), Some(mref_to_abs(&c.memory_reference)), ""),
+            Instruction::RawCapture(c) => rec("RawCapture", &c.frame.name, vec![], vec![expr_to_abs(&c.duration)], qs(&c.frame.qubits), Some(mref_to_abs(&c.memory_reference)), ""),
+            Instruction::SetFrequency(x) => fr("SetFrequency", &x.frame, &x.frequency),
+            Instruction::SetPhase(x) => fr("SetPhase", &x.frame, &x.phase),
+            Instruction::SetScale(x) => fr("SetScale", &x.frame, &x.scale),
+            Instruction::ShiftFrequency(x) => fr("ShiftFrequency", &x.frame, &x.frequency),
+            Instruction::ShiftPhase(x) => fr("ShiftPhase", &x.frame, &x.phase),
+            Instruction::SwapPhases(x) => {
+                if x.frame_1.name != x.frame_2.name || x.frame_1.qubits.len() != 1 || x.frame_2.qubits.len() != 1 {
+                    panic!("abs: SWAP-PHASES shape is not modelled");
+                }
+                rec("SwapPhases", &x.frame_1.name, vec![], vec![], vec![qubit_to_abs(&x.frame_1.qubits[0]), qubit_to_abs(&x.frame_2.qubits[0])], None, "")
+            }
+            Instruction::Declaration(d) => rec("Declare", &d.name, vec![], vec![], vec![], None, ""),
+            Instruction::Pragma(p) => {
+                if !p.arguments.is_empty() {
+                    panic!("abs: PRAGMA arguments are not modelled");
+                }
+                rec("Pragma", &p.name, vec![], vec![], vec![], None, p.data.as_deref().unwrap_or(""))
+            }
+            Instruction::Nop() => rec("Nop", "", vec![], vec![], vec![], None, ""),
+            Instruction::Move(m) => rec("Move", "", vec![], vec![], vec![], Some(mref_to_abs(&m.destination)), ""),
+            other => panic!("abs: instruction is not modelled: {other:?}"),
+        }
+    }
+
+    pub fn gate_ident_to_abs(id: &CalibrationIdentifier, body: &[Instruction]) -> Value {
+        json!({"k": "DefCal", "name": id.name, "mods": mods_to_abs(&id.modifiers),
+               "params": id.parameters.iter().map(expr_to_abs).collect::<Vec<_>>(),
+               "qubits": qs(&id.qubits), "body": body.iter().map(instr_to_abs).collect::<Vec<_>>()})
+    }
+
+    pub fn meas_ident_to_abs(id: &MeasureCalibrationIdentifier, body: &[Instruction]) -> Value {
+        json!({"k": "DefCalMeasure", "name": id.name.as_deref().unwrap_or(""), "qubit": qubit_to_abs(&id.qubit),
+               "target": id.target.as_deref().unwrap_or(""), "body": body.iter().map(instr_to_abs).collect::<Vec<_>>()})
+    }
+
+    pub fn def_to_abs(i: &Instruction) -> Value {
+        match i {
+            Instruction::CalibrationDefinition(c) => gate_ident_to_abs(&c.identifier, &c.instructions),
+            Instruction::MeasureCalibrationDefinition(c) => meas_ident_to_abs(&c.identifier, &c.instructions),
+            other => panic!("abs: not a calibration definition: {other:?}"),
+        }
+    }
+
+    // ------------------------------------------------------------------ programs and source maps
+
+    /// {"gcals":[..], "mcals":[..], "src":[..]}  ->  Program (definitions inserted in the given order)
+    pub fn program_from_abs(case: &Value) -> Program {
+        let mut p = Program::new();
+        for d in seq(case, "gcals").iter().chain(seq(case, "mcals")) {
+            p.add_instruction(def_from_abs(d));
+        }
+        for i in seq(case, "src") {
+            p.add_instruction(instr_from_abs(i));
+        }
+        p
+    }
+
+    /// which definition of the program an expansion record names: {"kind":"g"|"m","i":1-based index}
+    pub fn cal_ref(p: &Program, src: &CalibrationSource) -> Value {
+        match src {
+            CalibrationSource::Calibration(id) => {
+                let i = p.calibrations.iter_calibrations().position(|c| &c.identifier == id);
+                json!({"kind": "g", "i": i.map(|x| x + 1).unwrap_or(0)})
+            }
+            CalibrationSource::MeasureCalibration(id) => {
+                let i = p.calibrations.iter_measure_calibrations().position(|c| &c.identifier == id);
+                json!({"kind": "m", "i": i.map(|x| x + 1).unwrap_or(0)})
+            }
+        }
+    }
+
+    pub fn entries_to_abs(p: &Program, m: &SourceMap<InstructionIndex, ExpansionResult<CalibrationExpansion>>) -> Value {
+        Value::Array(
+            m.entries()
+                .iter()
+                .map(|e| {
+                    let t = match e.target_location() {
+                        ExpansionResult::Unmodified(t) => json!({"u": t.0}),
+                        ExpansionResult::Rewritten(x) => json!({"r": expansion_to_abs(p, x)}),
+                    };
+                    json!({"s": e.source_location().0, "t": t})
+                })
+                .collect(),
+        )
+    }
+
+    pub fn expansion_to_abs(p: &Program, x: &CalibrationExpansion) -> Value {
+        json!({"cal": cal_ref(p, x.calibration_used()), "from": x.range().start.0, "to": x.range().end.0,
+               "exps": entries_to_abs(p, x.expansions())})
+    }
+
+    pub fn listing(is: &[Instruction]) -> Vec<Value> {
+        is.iter().map(instr_to_abs).collect()
+    }
 }
 
-pub fn drive(_ctx: &Ctx) -> Summary {
-    panic!("C16: drive not implemented")
+// ------------------------------------------------------------------------------------------- C16
+
+/// body tag of the k-th inserted definition
+fn tag_instr(k: u64) -> Value {
+    json!({"k": "Pragma", "name": format!("tag{k}"), "mods": [], "params": [], "qubits": [], "mref": {"none": true}, "data": ""})
+}
+
+fn tag_of(body: &[Instruction]) -> u64 {
+    match body.first() {
+        Some(Instruction::Pragma(p)) => p.name.strip_prefix("tag").and_then(|s| s.parse().ok()).unwrap_or(0),
+        _ => 0,
+    }
+}
+
+fn with_tag(def: &Value) -> Value {
+    let mut d = def.clone();
+    let k = d["tag"].as_u64().expect("definition tag");
+    d.as_object_mut().unwrap().remove("tag");
+    d["body"] = json!([tag_instr(k)]);
+    d
+}
+
+struct Answers {
+    gtags: Vec<u64>,
+    mtags: Vec<u64>,
+    /// tag of the definition the public getter returns (0 = none)
+    getter: u64,
+    /// tag read off Program::expand_calibrations of the one-instruction body (0 = unchanged)
+    expanded: u64,
+    /// tags of the definitions replaced, per insert (0 = appended)
+    replaced: Vec<u64>,
+    /// number of definitions that match the query (statistics only: feeds the non-triviality rule)
+    nmatch: usize,
+    /// Program::add_instruction built the same set as Calibrations::insert_*
+    routes_agree: bool,
+}
+
+fn run_history(hist: &[Value], query: &Value) -> Answers {
+    let mut cals = Calibrations::default();
+    let mut program = Program::new();
+    let mut replaced = vec![];
+    for d in hist {
+        let real = abs::def_from_abs(&with_tag(d));
+        program.add_instruction(real.clone());
+        let old = match real {
+            Instruction::CalibrationDefinition(c) => cals.insert_calibration(c).map(|o| tag_of(&o.instructions)),
+            Instruction::MeasureCalibrationDefinition(c) => {
+                cals.insert_measurement_calibration(c).map(|o| tag_of(&o.instructions))
+            }
+            _ => unreachable!(),
+        };
+        replaced.push(old.unwrap_or(0));
+    }
+    let gtags = cals.iter_calibrations().map(|c| tag_of(&c.instructions)).collect();
+    let mtags = cals.iter_measure_calibrations().map(|c| tag_of(&c.instructions)).collect();
+    let q = abs::instr_from_abs(query);
+    let getter = match &q {
+        Instruction::Gate(g) => cals.get_match_for_gate(g).map(|c| tag_of(&c.instructions)),
+        Instruction::Measurement(m) => cals.get_match_for_measurement(m).map(|c| tag_of(&c.instructions)),
+        _ => panic!("C16: query is neither a gate nor a measurement"),
+    }
+    .unwrap_or(0);
+    let nmatch = match &q {
+        Instruction::Gate(g) => cals.iter_calibrations().filter(|c| c.identifier.matches(g)).count(),
+        Instruction::Measurement(m) => cals
+            .iter_measure_calibrations()
+            .filter(|c| {
+                c.identifier.name == m.name
+                    && c.identifier.target.is_some() == m.target.is_some()
+                    && (matches!(c.identifier.qubit, quil_rs::instruction::Qubit::Variable(_)) || c.identifier.qubit == m.qubit)
+            })
+            .count(),
+        _ => 0,
+    };
+    // the set built through Program::add_instruction should be the same set (reported as a divergence)
+    let routes_agree = program.calibrations == cals;
+    program.add_instruction(q.clone());
+    let expanded = match program.expand_calibrations() {
+        Ok(p) => {
+            let body = p.body_instructions().cloned().collect::<Vec<_>>();
+            if body.len() == 1 && body[0] == q {
+                0
+            } else {
+                tag_of(&body)
+            }
+        }
+        // tagged bodies hold no gate or measurement: an error here means no definition was applied
+        Err(_) => u64::MAX,
+    };
+    Answers { gtags, mtags, getter, expanded, replaced, nmatch, routes_agree }
+}
+
+fn tags(v: &Value) -> Vec<u64> {
+    v.as_array().map(|a| a.iter().map(|x| x.as_u64().unwrap_or(0)).collect()).unwrap_or_default()
+}
+
+pub fn replay(_ctx: &Ctx, case: &Value) -> Outcome {
+    if let Some(h) = case.get("history") {
+        return replay_recorded(h);
+    }
+    let hist = util::arr(case, "hist");
+    let a = run_history(hist, &case["query"]);
+    let mut o = Outcome::ok(case["nmatch"].as_u64().unwrap_or(0) >= 2 || a.replaced.iter().any(|&t| t != 0));
+    if !a.routes_agree {
+        o.diverge("Program::add_instruction and Calibrations::insert_* build different calibration sets");
+    }
+    let want_g = tags(&case["gtags"]);
+    let want_m = tags(&case["mtags"]);
+    if a.gtags != want_g || a.mtags != want_m {
+        o.violate(
+            Violation::new("calibration set order after redefinition", json!({"g": want_g, "m": want_m}), json!({"g": a.gtags, "m": a.mtags}))
+                .note("a definition with an identical signature must replace the old one in place, any other is appended"),
+        );
+    }
+    let want = case["chosen"].as_u64().expect("chosen");
+    if a.getter != want {
+        o.violate(
+            Violation::new("chosen calibration (get_match_for_gate / get_match_for_measurement)", json!(want), json!(a.getter))
+                .note("tags number the definitions in insertion order; 0 = no match"),
+        );
+    }
+    if a.expanded != want {
+        o.violate(
+            Violation::new("chosen calibration (Program::expand_calibrations)", json!(want), json!(a.expanded))
+                .note("tags number the definitions in insertion order; 0 = instruction left unchanged"),
+        );
+    }
+    o
+}
+
+/// replay of a history rejected by trace validation: re-run it and report what the code answers
+fn replay_recorded(h: &Value) -> Outcome {
+    let evs = h.as_array().cloned().unwrap_or_default();
+    let hist: Vec<Value> = evs.iter().filter(|e| e["ev"] == "insert").map(|e| e["def"].clone()).collect();
+    let mut o = Outcome::ok(true);
+    for e in evs.iter().filter(|e| e["ev"] == "match") {
+        let a = run_history(&hist, &e["query"]);
+        if json!(a.getter) != e["chosen"] || json!(a.gtags) != e["gtags"] || json!(a.mtags) != e["mtags"] {
+            o.diverge(format!("re-run differs from the recording: chosen {} vs {}", a.getter, e["chosen"]));
+        } else {
+            o.violate(Violation::new("chosen calibration (recorded run rejected by the specification)", Value::Null, json!(a.getter)));
+        }
+    }
+    o
+}
+
+// ------------------------------------------------------------------------------------------- drive
+
+fn q_fixed(n: u64) -> Value {
+    json!({"t": "fixed", "n": n})
+}
+fn q_var(s: &str) -> Value {
+    json!({"t": "var", "s": s})
+}
+
+fn random_param(r: &mut impl Rng, for_cal: bool) -> Value {
+    match r.gen_range(0..if for_cal { 6 } else { 11 }) {
+        0 => json!({"t": "int", "n": 0}),
+        1 => json!({"t": "int", "n": 1}),
+        2 => json!({"t": "pi2"}),
+        3 => json!({"t": "real", "s": "1.5707963267948966"}),
+        4 => json!({"t": "real", "s": "0.25"}),
+        5 => {
+            let v = *["t", "u"].choose(r).unwrap();
+            json!({"t": "var", "v": v})
+        }
+        6 => json!({"t": "plus1", "e": {"t": "int", "n": 0}}),
+        7 => json!({"t": "neg", "e": {"t": "pi2"}}),
+        // spellings whose value is a literal of the calibration alphabet: -0, -(-(pi/2)), (-1)+1
+        8 => json!({"t": "neg", "e": {"t": "int", "n": 0}}),
+        9 => json!({"t": "neg", "e": {"t": "neg", "e": {"t": "pi2"}}}),
+        _ => json!({"t": "plus1", "e": {"t": "neg", "e": {"t": "int", "n": 1}}}),
+    }
+}
+
+fn random_gate_like(r: &mut impl Rng, for_cal: bool) -> Value {
+    let name = ["X", "RX", "CZ"].choose(r).unwrap();
+    let mods: Vec<&str> = match r.gen_range(0..6) {
+        0 => vec!["DAGGER"],
+        1 => vec!["DAGGER", "DAGGER"],
+        2 => vec!["CONTROLLED"],
+        _ => vec![],
+    };
+    let np = r.gen_range(0..3);
+    let params: Vec<Value> = (0..np).map(|_| random_param(r, for_cal)).collect();
+    let nq = r.gen_range(1..=3);
+    let qubits: Vec<Value> = (0..nq)
+        .map(|k| {
+            if for_cal && r.gen_bool(0.45) {
+                q_var(["q", "r", "s"][k])
+            } else {
+                q_fixed(r.gen_range(0..3))
+            }
+        })
+        .collect();
+    json!({"name": name, "mods": mods, "params": params, "qubits": qubits})
+}
+
+fn random_def(r: &mut impl Rng, kind: &str, tag: u64) -> Value {
+    if kind == "gate" {
+        let mut d = random_gate_like(r, true);
+        d["k"] = json!("DefCal");
+        d["tag"] = json!(tag);
+        d
+    } else {
+        let qubit = if r.gen_bool(0.4) { q_var(["q", "r"].choose(r).unwrap()) } else { q_fixed(r.gen_range(0..3)) };
+        let name = *["", "", "m", "n"].choose(r).unwrap();
+        let target = *["", "addr", "dest"].choose(r).unwrap();
+        json!({"k": "DefCalMeasure", "name": name, "qubit": qubit, "target": target, "tag": tag})
+    }
+}
+
+fn random_query(r: &mut impl Rng, kind: &str, hist: &[Value]) -> Value {
+    if kind == "gate" {
+        // mostly derived from an inserted identifier (so that matches happen), sometimes free
+        let mut g = if !hist.is_empty() && r.gen_bool(0.8) {
+            let d = hist.choose(r).unwrap();
+            let qubits: Vec<Value> =
+                d["qubits"].as_array().unwrap().iter().map(|q| if q["t"] == "var" || r.gen_bool(0.15) { q_fixed(r.gen_range(0..3)) } else { q.clone() }).collect();
+            let params: Vec<Value> = d["params"]
+                .as_array()
+                .unwrap()
+                .iter()
+                .map(|p| if p["t"] == "var" || r.gen_bool(0.2) { random_param(r, false) } else { p.clone() })
+                .collect();
+            json!({"name": d["name"], "mods": d["mods"], "params": params, "qubits": qubits})
+        } else {
+            random_gate_like(r, false)
+        };
+        g["k"] = json!("Gate");
+        g["mref"] = json!({"none": true});
+        g["data"] = json!("");
+        g
+    } else {
+        let mref = if r.gen_bool(0.6) { json!({"some": {"name": "ro", "index": r.gen_range(0..2)}}) } else { json!({"none": true}) };
+        let qubit = if r.gen_bool(0.1) { q_var("q") } else { q_fixed(r.gen_range(0..3)) };
+        let name = *["", "", "m", "n"].choose(r).unwrap();
+        json!({"k": "Measure", "name": name, "mods": [], "params": [], "qubits": [qubit], "mref": mref, "data": ""})
+    }
+}
+
+pub fn drive(ctx: &Ctx) -> Summary {
+    let n = ctx.arg_u64("n", 100);
+    let max_cals = ctx.arg_u64("cals", 8) as usize;
+    let path = ctx.arg_str("out").expect("--out");
+    let mut out = std::io::BufWriter::new(std::fs::File::create(path).expect("create trace"));
+    let mut rng = util::rng(ctx.seed, 16);
+    let mut sum = Summary::default();
+    for h in 0..n {
+        let kind = if h % 3 == 2 { "meas" } else { "gate" };
+        util::emit(&mut out, &json!({"ev": "reset", "kind": kind}));
+        let len = rng.gen_range(1..=max_cals);
+        let mut hist: Vec<Value> = vec![];
+        let mut redefinition = false;
+        for k in 0..len {
+            // now and then re-insert an earlier identifier (redefinition)
+            let d = if !hist.is_empty() && rng.gen_bool(0.2) {
+                let mut d = hist.choose(&mut rng).unwrap().clone();
+                d["tag"] = json!(k as u64 + 1);
+                d
+            } else {
+                random_def(&mut rng, kind, k as u64 + 1)
+            };
+            hist.push(d.clone());
+            let a = run_history(&hist, &random_query(&mut rng, kind, &[]));
+            redefinition |= a.replaced.last().copied().unwrap_or(0) != 0;
+            util::emit(&mut out, &json!({"ev": "insert", "def": d, "replaced": a.replaced.last(), "gtags": a.gtags, "mtags": a.mtags}));
+        }
+        let mut many = false;
+        let nq = rng.gen_range(2..=5);
+        for _ in 0..nq {
+            let q = random_query(&mut rng, kind, &hist);
+            let a = run_history(&hist, &q);
+            many |= a.nmatch >= 2;
+            util::emit(&mut out, &json!({"ev": "match", "query": q, "chosen": a.getter, "expanded": a.expanded,
+                                         "gtags": a.gtags, "mtags": a.mtags}));
+        }
+        let mut o = Outcome::ok(many || redefinition);
+        o.count_n("events", (1 + len + nq) as u64);
+        sum.absorb(&json!({"hist": hist}), &o, true);
+    }
+    sum
 }
